@@ -37,3 +37,17 @@ def tokens (line : String) : List String :=
   (line.trimAscii.toString.splitOn " ").filter (· ≠ "")
 
 end Driver
+
+namespace Driver
+/-- generic line loop: one line in, one line out, explicit state -/
+partial def runLoop {σ : Type} (init : σ) (step : σ → List String → σ × String) : IO Unit := do
+  let stdin ← IO.getStdin
+  let stdout ← IO.getStdout
+  let rec go (st : σ) : IO Unit := do
+    let line ← stdin.getLine
+    if line.isEmpty then return ()
+    let (st', o) := step st (tokens line)
+    stdout.putStrLn o
+    go st'
+  go init
+end Driver
